@@ -123,11 +123,11 @@ func c31Gen(rng *core.Rng, tier string) *harness.Plan {
 	} else if p.Params["storage"] == 0 {
 		// thorough: most signature-heavy runs stop there too (a full run takes the better part of an hour
 		// of signature verification on seven nodes); the others go all the way to finalization with a
-		// third of the load
-		if rng.Chance(0.8) {
+		// sixth of the load
+		if rng.Chance(0.85) {
 			p.Params["stop_after_proposal"] = 1
 		} else {
-			p.Params["txs"], p.Params["inputs"] = int64(10+rng.IntN(5)), 256
+			p.Params["txs"], p.Params["inputs"] = int64(5+rng.IntN(3)), 256
 		}
 	}
 	p.Params["target"] = int64(rng.IntN(7))
